@@ -317,6 +317,9 @@ class ListWalk:
                 raise _Continue()
             elif isinstance(st, ast.Pass):
                 pass
+            elif isinstance(st, ast.FunctionDef):
+                self.env[st.name] = st            # a local function: kept as a value (callable through self.funcs if registered)
+                self.funcs.setdefault(st.name, st)
             elif isinstance(st, (ast.Import, ast.ImportFrom)):
                 raise ImportError(f"{norm(st)[:60]} (no such module in the model)")
             elif isinstance(st, ast.Assert):
